@@ -205,7 +205,7 @@ func Eq(a, b *Term) *Term {
 	if a.W != b.W {
 		panic(fmt.Sprintf("Eq width mismatch %d %d", a.W, b.W))
 	}
-	if a == b {
+	if a == b || shallowSame(a, b, 3) {
 		return TrueT
 	}
 	if a.IsConst() && b.IsConst() {
@@ -322,6 +322,11 @@ func Bin(op Op, a, b *Term) *Term {
 			return ConstT(a.W, v)
 		}
 	}
+	if op == OpBOr {
+		if m := mergeFields(a, b); m != nil {
+			return m
+		}
+	}
 	// light identities
 	switch op {
 	case OpAdd, OpBOr, OpBXor:
@@ -366,6 +371,87 @@ func Bin(op Op, a, b *Term) *Term {
 		}
 	}
 	return &Term{Op: op, W: a.W, Args: []*Term{a, b}}
+}
+
+// ---- byte-wise reassembly: x[15:8]<<8 | x[7:0]  =  x[15:0] ----
+//
+// A value stored to a buffer byte by byte and loaded back (binary.BigEndian /
+// LittleEndian) comes back as an OR of shifted, zero-extended slices of one
+// term. Adjacent slices are merged so that the round trip yields the original
+// term again instead of a formula the solver has to see through.
+type bvField struct {
+	src     *Term
+	hi, lo  int
+	pos, tw int
+}
+
+func asField(t *Term) (bvField, bool) {
+	tw, pos := t.W, 0
+	if t.Op == OpShl && t.Args[1].IsConst() {
+		pos = int(t.Args[1].Val)
+		t = t.Args[0]
+	}
+	if t.Op == OpZExt {
+		t = t.Args[0]
+	}
+	if t.IsConst() {
+		return bvField{}, false
+	}
+	if t.Op == OpExtract {
+		return bvField{t.Args[0], t.Hi, t.Lo, pos, tw}, true
+	}
+	return bvField{t, t.W - 1, 0, pos, tw}, true
+}
+
+func (f bvField) term() *Term {
+	s := Extract(f.src, f.hi, f.lo)
+	s = ZExt(s, f.tw)
+	if f.pos > 0 {
+		s = Bin(OpShl, s, ConstT(f.tw, uint64(f.pos)))
+	}
+	return s
+}
+
+func mergeFields(a, b *Term) *Term {
+	fa, ok := asField(a)
+	if !ok {
+		return nil
+	}
+	fb, ok := asField(b)
+	if !ok || fa.src != fb.src || fa.tw != fb.tw {
+		return nil
+	}
+	up, low := fa, fb
+	if up.pos < low.pos {
+		up, low = low, up
+	}
+	lw := low.hi - low.lo + 1
+	if up.lo != low.hi+1 || up.pos != low.pos+lw || up.pos+(up.hi-up.lo+1) > up.tw {
+		return nil
+	}
+	return bvField{low.src, up.hi, low.lo, low.pos, low.tw}.term()
+}
+
+// shallowSame: structurally equal down to a small depth (children by identity)
+func shallowSame(a, b *Term, depth int) bool {
+	if a == b {
+		return true
+	}
+	if depth == 0 || a.Op != b.Op || a.W != b.W || a.Hi != b.Hi || a.Lo != b.Lo || a.Name != b.Name || len(a.Args) != len(b.Args) {
+		return false
+	}
+	if a.IsConst() {
+		return a.Val == b.Val
+	}
+	if len(a.Args) == 0 {
+		return a.Op == OpVar
+	}
+	for i := range a.Args {
+		if !shallowSame(a.Args[i], b.Args[i], depth-1) {
+			return false
+		}
+	}
+	return true
 }
 
 func Cmp(op Op, a, b *Term) *Term {
@@ -461,6 +547,22 @@ func Concat(hi, lo *Term) *Term {
 	}
 	if hi.IsConst() && lo.IsConst() {
 		return ConstT(w, hi.Val<<uint(lo.W)|lo.Val)
+	}
+	// adjacent slices of one term: concat(x[h:m+1], x[m:l]) = x[h:l] (a value
+	// written to a buffer byte by byte and read back)
+	if hi.Op == OpExtract && lo.Op == OpExtract && hi.Args[0] == lo.Args[0] && hi.Lo == lo.Hi+1 {
+		return Extract(hi.Args[0], hi.Hi, lo.Lo)
+	}
+	if hi.Op == OpExtract && lo.Op != OpExtract && hi.Args[0] == lo && hi.Lo == lo.W && false {
+		return lo
+	}
+	// concat(x[h:m+1], concat(x[m:l], rest)) = concat(x[h:l], rest)
+	if hi.Op == OpExtract && lo.Op == OpConcat && lo.Args[0].Op == OpExtract && lo.Args[0].Args[0] == hi.Args[0] && hi.Lo == lo.Args[0].Hi+1 {
+		return Concat(Extract(hi.Args[0], hi.Hi, lo.Args[0].Lo), lo.Args[1])
+	}
+	// concat(concat(a, x[m:l]), x[l-1:k]) = concat(a, x[m:k])
+	if lo.Op == OpExtract && hi.Op == OpConcat && hi.Args[1].Op == OpExtract && hi.Args[1].Args[0] == lo.Args[0] && hi.Args[1].Lo == lo.Hi+1 {
+		return Concat(hi.Args[0], Extract(lo.Args[0], hi.Args[1].Hi, lo.Lo))
 	}
 	return &Term{Op: OpConcat, W: w, Args: []*Term{hi, lo}}
 }
